@@ -16,6 +16,11 @@ CLAIMS["C15"] = dict(
   text="Decides from the MIR/HIR/type facts of /repo's current tree that (a) everything reachable from eval_query takes Context/Registry by shared reference and no interior mutability, user unsafe, static mut or non-Freeze static exists in rink_core (so a query cannot write database, clock or settings), (b) every write through a field of Context or Registry in all five crates is made by an allowed writer, none reachable from a per-query entry, (c) each of the three stores to previous_result is reachable only through the edges success / save_previous_result==true / QueryReply::Number / raw_value Some and stores that reply's raw value, (d) QueryReply::Number is built only in the plain-expression arm, (e) Context::lookup serves exactly ans/ANS/_ from previous_result, (f) load-time temporaries are cleared on every path. Together these are the whole structural content of the property; what is left (determinism of evaluation) is C08's clause.",
   note="Trusted: rustc's borrow checker (shared reference + no interior mutability => no write), the driver, the allowed-writer table in rules/c15.py. A refactor that moves the ans update into a new function needs a table line.",
   design_ref="DESIGN.md section 4, C15")
+CLAIMS["C18"] = dict(
+  technique="typestate / arm-table analysis over HIR of the parent loop, child-side fact extraction, sibling agreement of framing functions",
+  text="On the HIR of rink_sandbox as it stands: the request loop's statement order (recv, write, await reply, exactly one send, optional kill+break) with no skipping break/continue and `?`-consumed results gives one reply per request; the arm table of `match pending.await` is checked against facts extracted from the child (it exits after any Err reply; one read and one write per iteration): every Err-answering arm must set break_out, break_out must reach process.kill() and a break to the loop that spawns a new child whose fresh stdin/stdout are the handles used afterwards; execute pairs one send with one recv over bounded(1) channels; the four framing functions agree on prefix type, endianness, byte count and order. This decides the protocol's shape for all request/fault sequences at once; timing, signals and pipe semantics are outside static reach and not claimed.",
+  note="Trusted: the extractor's reading of the HIR shape (a restructured run_task is reported as anchor-lost, not passed); OS process and pipe behaviour; async-std's timeout/race semantics.",
+  design_ref="DESIGN.md section 4, C18")
 NA = {
  "C05": "digit strings, recurring-block offsets and the 1-ulp truncation bound are number-theoretic facts about runtime values of p/q and the base; no structural clause is a genuine necessary condition (DESIGN.md section 4, C05)",
 }
